@@ -293,8 +293,11 @@ def call_package(self, fi, pos, kw, self_term, self_cls, node, fr, star=None, ds
     if is_method and fi.is_classmethod:
         f2.self_cls = self_cls
     if any(isinstance(n, (ast.Yield, ast.YieldFrom)) for n in ast.walk(fi.node)) and id(fi.node) not in self._with_hooks:
-        # generator: body is not run at call time
-        return T.mk_call(fi.short, pos, kw)
+        # generator: its items, as the list a consumer would collect (side effects are not interleaved with the consumer's)
+        twin = _generator_as_list(fi)
+        if twin is None:
+            return T.mk_call(fi.short, pos, kw)
+        f2.fi = twin
     ret, live = self._run_frame(f2)
     if ev is not None:
         ev.data['ret'] = ret
@@ -327,6 +330,62 @@ def call_package(self, fi, pos, kw, self_term, self_cls, node, fr, star=None, ds
     if okc.key != TRUE.key:
         self.pending.append(okc)
     return ret
+
+
+_GEN_TWINS = {}
+
+
+def _generator_as_list(fi):
+    """FuncInfo of `def g(..): ...; yield e; ...` rewritten as `items = []; ...; items.append(e); ...; return items`
+    (every yield an expression statement, no `return value`); None when the generator is not of that form"""
+    import copy
+    if id(fi.node) in _GEN_TWINS:
+        return _GEN_TWINS[id(fi.node)][1]
+    twin = None
+    node = fi.node
+    ok = isinstance(node, ast.FunctionDef)
+    if ok:
+        own = []
+
+        def walk(n):
+            for ch in ast.iter_child_nodes(n):
+                if isinstance(ch, (ast.FunctionDef, ast.Lambda, ast.ClassDef)):
+                    continue
+                own.append((n, ch))
+                walk(ch)
+        walk(node)
+        for parent, ch in own:
+            if isinstance(ch, ast.YieldFrom) or (isinstance(ch, ast.Yield) and not isinstance(parent, ast.Expr)):
+                ok = False
+            if isinstance(ch, ast.Return) and ch.value is not None:
+                ok = False
+    if ok:
+        new = copy.deepcopy(node)
+
+        class R(ast.NodeTransformer):
+            def visit_FunctionDef(self, n):
+                return n if n is not new else self.generic_visit(n)
+
+            def visit_Lambda(self, n):
+                return n
+
+            def visit_Expr(self, n):
+                if isinstance(n.value, ast.Yield):
+                    v = n.value.value if n.value.value is not None else ast.Constant(value=None)
+                    call = ast.Call(func=ast.Attribute(value=ast.Name(id='__gen_items', ctx=ast.Load()), attr='append',
+                                                       ctx=ast.Load()), args=[v], keywords=[])
+                    return ast.copy_location(ast.Expr(value=call), n)
+                return n
+        new = R().visit(new)
+        first = ast.Assign(targets=[ast.Name(id='__gen_items', ctx=ast.Store())], value=ast.List(elts=[], ctx=ast.Load()))
+        last = ast.Return(value=ast.Name(id='__gen_items', ctx=ast.Load()))
+        ast.copy_location(first, node.body[0])
+        ast.copy_location(last, node.body[-1])
+        new.body = [first] + list(new.body) + [last]
+        ast.fix_missing_locations(new)
+        twin = FuncInfo(fi.module, fi.qual, new, cls=fi.cls, parent=fi.parent)
+    _GEN_TWINS[id(fi.node)] = (fi, twin)
+    return twin
 
 
 def call_closure(self, cl, ca, pos, kw, node, fr):
